@@ -64,6 +64,69 @@ def renamed_copies(X):
     return out
 
 
+def renamed_copy_sources(X):
+    """x86mndb.<x>_m -> name of the table row it is a copy of (x86allmncs.__init__: `pm = self.db_mnemo[0x9c]` / `pm = self.find_mnemo("lodsd")[0]`
+    followed by `self.<x>_m = mnemonic(pm.name, pm.opc, ...)`), resolved on the statically expanded table."""
+    init = X.arch.method('x86allmncs', '__init__')
+    out, cur = {}, None
+    by_opc = {}
+    for path, c in X.cells.items():
+        by_opc.setdefault(tuple(c.opc), c.row.name)
+    for st in init.body:
+        if isinstance(st, ast.Assign) and len(st.targets) == 1 and isinstance(st.targets[0], ast.Name) and st.targets[0].id == 'pm':
+            v = st.value
+            cur = None
+            if isinstance(v, ast.Subscript) and u(v.value) == 'self.db_mnemo' and isinstance(v.slice, ast.Constant):
+                cur = by_opc.get((v.slice.value,), '?opcode %#x' % v.slice.value)
+            elif isinstance(v, ast.Subscript) and isinstance(v.value, ast.Call) and u(v.value.func) == 'self.find_mnemo' and v.value.args and isinstance(v.value.args[0], ast.Constant):
+                cur = v.value.args[0].value
+            else:
+                cur = '?' + u(v)[:40]
+        if isinstance(st, ast.Assign) and isinstance(st.targets[0], ast.Attribute) and u(st.targets[0]).startswith('self.') and u(st.targets[0]).endswith('_m') \
+                and isinstance(st.value, ast.Call) and u(st.value.func) == 'mnemonic':
+            src = cur if st.value.args and u(st.value.args[0]).startswith('pm.') else '?' + u(st.value)[:40]
+            out[u(st.targets[0])[5:]] = src
+    return out
+
+
+def rename_map(X):
+    """(row name the decoder found, x86mndb attribute it is replaced by) pairs of special_opcodes: dictionary displays name -> x86mndb.<x>_m and
+    `self.m = x86mndb.<x>_m` under `self.m.name.startswith("<stem>")`."""
+    sp = X.arch.method('x86_mn', 'special_opcodes')
+    pairs = []
+    for n in walk_no_nested(sp):
+        if isinstance(n, ast.Dict):
+            for k, v in zip(n.keys, n.values):
+                if isinstance(k, ast.Constant) and isinstance(v, ast.Attribute) and u(v.value) == 'x86mndb' and v.attr.endswith('_m'):
+                    pairs.append((k.value, v.attr, 'exact'))
+        if isinstance(n, ast.If) and 'self.m.name.startswith' in u(n.test):
+            stems = [c.args[0].value for c in ast.walk(n.test) if isinstance(c, ast.Call) and u(c.func) == 'self.m.name.startswith' and c.args and isinstance(c.args[0], ast.Constant)]
+            for a in ast.walk(n):
+                if isinstance(a, ast.Assign) and u(a.targets[0]) == 'self.m' and isinstance(a.value, ast.Attribute) and u(a.value.value) == 'x86mndb':
+                    for stem in stems:
+                        pairs.append((stem, a.value.attr, 'stem'))
+    return pairs
+
+
+def renamed_copy_rule(X, R, what):
+    """Every row copy special_opcodes swaps in is a copy of the row it stands for (its flow attributes, operand layout and modifiers come with it)."""
+    from .core import where
+    srcs = renamed_copy_sources(X)
+    pairs = rename_map(X)
+    if len(pairs) < 10:
+        raise AnalysisError('special_opcodes: %d rename sites found, at least 10 expected' % len(pairs))
+    init = X.arch.method('x86allmncs', '__init__')
+    for name, attr, kind in sorted(set(pairs)):
+        src = srcs.get(attr)
+        inst = 'renamed-copy-source:%s->%s' % (name, attr)
+        good = src is not None and (src == name if kind == 'exact' else src.startswith(name))
+        if good:
+            R.ok(inst, sample='%s is a copy of the row %s' % (attr, src))
+        else:
+            R.violation(inst, 'copy-source:%s:%s' % (attr, src), 'special_opcodes replaces the row %r by x86mndb.%s, which __init__ builds as a copy of the row %r: %s of another instruction'
+                        % (name, attr, src, what), where(X.arch, init), witness='66 cf (iretw) is not reported as ending the block' if attr == 'iretw_m' else None)
+
+
 def decoded_name(X, mnemonic, opmode, prefix=(), modifs=None):
     """(mnemonic name, prefix list) after x86_mn.special_opcodes, for an operand-less row named `mnemonic` decoded under `opmode`:
     the whole method body is evaluated."""
